@@ -593,10 +593,10 @@ registry! {
     c19_ring_l4_lookup_rf4, "C19", experimental, 10, ring, 900 => c19::ring(4, 0, 4); // layout 4, rf = 4 > cluster size
     c19_ring_l4_gossip_rf3, "C19", experimental, 10, ring, 900 => c19::ring(4, 1, 3); // layout 4, rf = 3: gossip targets
     c19_ring_l4_removal_rf2, "C19", experimental, 10, ring, 900 => c19::ring(4, 2, 2); // layout 4, rf = 2: removal of one member
-    c13_fold_2_c2, "C13", quick, 8, plain, 1200 => c13::fold(2, 0); // as c13_fold_2 with the 2-slot container model
+    c13_fold_2_c2, "C13", thorough, 8, plain, 1200 => c13::fold(2, 0); // as c13_fold_2 with the 2-slot container model
     c13_fold_2_outside_c2, "C13", experimental, 8, plain, 1200 => c13::fold(2, 1); // as c13_fold_2_outside with the 2-slot container model
     c13_fold_3_c2, "C13", experimental, 8, plain, 1800 => c13::fold(3, 0); // 3 updates, 2-slot container model
-    c13_twin_c2, "C13", quick, 8, plain, 300 => c13::twin();
+    c13_twin_c2, "C13", thorough, 8, plain, 300 => c13::twin();
     c08_state_write_c2, "C08", experimental,    6, plain, 600 => c08::state_step(0); // one key, LWW values, arbitrary I-state + arbitrary remote delta, then record_write
     c08_state_delete_c2, "C08", experimental,    6, plain, 600 => c08::state_step(1); // same, then record_delete
     c06_pair_set_set_pre1_c2, "C06", thorough, 6, plain, 1500 => c06::pair(0, 0, 1); // A: SET, B: SET on one key, pre-state common LWW value; symbolic clocks and bytes; deltas cross-delivered once
@@ -772,8 +772,8 @@ registry! {
     c11_plan_3_ck1, "C11", experimental, 8, plain, 600 => c11::segment_plan(3, 1); // recover()'s segment selection (S9): 3 listed segments (ids 1..3 in either list order), minimum stamps from {5,7} (equal minima included), checkpoint covering segments up to id 1
     c11_plan_3_ck2, "C11", experimental, 8, plain, 600 => c11::segment_plan(3, 2); // recover()'s segment selection (S9): 3 listed segments (ids 1..3 in either list order), minimum stamps from {5,7} (equal minima included), checkpoint covering segments up to id 2
     c13_fold_1_out_c2, "C13", experimental, 8, plain, 900 => c13::fold(1, 2); // 1 update in the compacted segment + 1 update of the key outside the compaction (older segment / checkpoint); cutoff = any u64
-    c13_twin_c1, "C13", thorough, 8, plain, 300 => c13::twin();
-    c13_fold_2_c1, "C13", thorough, 8, plain, 900 => c13::fold(2, 0); // 2 LWW updates of one key in the compacted segments (1-slot container model): stamps, bytes, tombstones symbolic; cutoff = any u64
+    c13_twin_c1, "C13", quick, 8, plain, 300 => c13::twin();
+    c13_fold_2_c1, "C13", quick, 8, plain, 1200 => c13::fold(2, 0); // 2 LWW updates of one key in the compacted segments (1-slot container model): stamps, bytes, tombstones symbolic; cutoff = any u64
     c13_fold_3_c1, "C13", experimental, 8, plain, 1800 => c13::fold(3, 0); // 3 LWW updates
     c13_fold_1_out_c1, "C13", experimental, 8, plain, 900 => c13::fold(1, 2); // 1 update in the compacted segment + 1 update of the key outside the compaction
     c13_fold_2_out_c1, "C13", experimental, 8, plain, 1800 => c13::fold(2, 2); // 2 updates compacted + 1 outside
